@@ -15,6 +15,9 @@ VERIF = str(Path(__file__).resolve().parents[2])
 PY = sys.executable
 
 
+COVER = set()
+
+
 class HarnessError(Exception):
     pass
 
@@ -159,6 +162,8 @@ def execute(scn, zy: Zygotes, keep=False):
                     crashed = ln
                     continue
                 if ln.get('done'):
+                    if 'cover' in ln:
+                        COVER.update(map(tuple, ln['cover']))
                     continue
                 if 'harness_error' in (ln.get('res') or {}):
                     raise HarnessError('op harness error: ' + ln['res']['harness_error'])
